@@ -1,0 +1,15 @@
+//go:build verif
+
+// Contracts for package rekor, checked by /verif/govc (see /verif/DESIGN.md, C12/C19).
+// This file contains no code: only structured //@ comments keyed by function.
+
+package rekor
+
+// Every feed cycle is started for exactly this log: its ID, its origin, its verifier, and the witness handed in.
+//@ func FeedLog
+//@   returns (err)
+//@   requires w != nil && l.Verifier != nil
+//@   modifies heap
+//@   ghostmodifies n_fo, fo_id, fo_origin, fo_v, fo_w
+//@   ensures[C12.feed] n_fo <= old(n_fo) + 1
+//@   ensures[C12.feed] n_fo == old(n_fo) + 1 ==> fo_id == l.ID && fo_origin == l.Origin && fo_v == l.Verifier && fo_w == w
